@@ -41,7 +41,16 @@ class SourceModule(Object):
             return False
         self._checking = True
         try:
-            return any(m.changed for m in scope.star_modules)
+            if any(m.changed for m in scope.star_modules):
+                return True
+            for mname in scope.star_missing:
+                # a module that could not be star-imported then may exist now
+                try:
+                    self.project.get_nmodule(mname, self.filename)
+                except ImportError:
+                    continue
+                return True
+            return False
         finally:
             self._checking = False
 
